@@ -5,7 +5,7 @@ use pdatastructs::reservoirsampling::ReservoirSampling;
 use serde_json::json;
 use std::sync::Mutex;
 
-pub const RULE: &str = "per (k, n) cell T independent RNG seeds; the stream is the position ids 0..n; inclusion counts per position (n <= 600) or per regional bin (first k, [k,2k), [2k,4k), position 4k, geometric bins, last k, last item). n <= 4k+1: every cell against exactly k/n (|z| > 5 flags; confirmation on fresh seeds with 8x trials, |z| > 6, same sign). n > 4k+1: |freq/(k/n) - 1| must stay within max(analytic allowance C/k*(1+ln(n/4k)), bias of the harness's own implementation of the documented algorithm on independent seeds) plus 5-6 sigma. additionally k=1 with n = 4x10^7 (n/k > 2^25) and a dispersion (chi-square) test over the first k positions for k = 3*2^19, n = 32k; non-trivial = one (k, n, seed) trial with n > k; distinct = (cell, trial) pairs";
+pub const RULE: &str = "per (k, n) cell T independent RNG seeds; the stream is the position ids 0..n; inclusion counts per position (n <= 600) or per regional bin (first k, [k,2k), [2k,4k), position 4k, geometric bins, last k, last item). n <= 4k+1: every cell against exactly k/n (|z| > 5 flags; confirmation on fresh seeds with 8x trials, |z| > 6, same sign). n > 4k+1: |freq/(k/n) - 1| must stay within max(analytic allowance C/k*(1+ln(n/4k)), bias of the harness's own implementation of the documented algorithm on independent seeds) plus 5-6 sigma. selected cells are repeated on a sampler reused after clear() and with the stream delivered through extend() in random batches (with and without exact size hints) interleaved with add(); additionally k=1 with n = 4x10^7 (n/k > 2^25) and a dispersion (chi-square) test over the first k positions for k = 3*2^19, n = 32k; non-trivial = one (k, n, seed) trial with n > k; distinct = (cell, trial) pairs";
 pub const ASSUMPTIONS: &[&str] = &[
     "binomial variance is used for bins (conservative: inclusions of different positions are negatively correlated)",
     "the reference sampler is the documented algorithm: Algorithm R up to 4k items, then geometric gaps with p = k/(i+1) frozen per gap",
@@ -130,6 +130,9 @@ enum RngKind {
     /// FastRng; the sampler first sees 5k+3 other items and is cleared (a cleared sampler must
     /// sample the next stream like a fresh one)
     FastAfterClear,
+    /// FastRng; the stream arrives through `extend` in batches of random length (1..8, up to 2k,
+    /// some through an adaptor without an exact size hint) interleaved with single `add`s
+    FastExtendBatches,
 }
 
 struct CellCounts {
@@ -157,7 +160,7 @@ fn run_trials(ctx: &Ctx, k: usize, n: usize, trials: usize, stage: u64, rk: RngK
         for t in (ci * per)..((ci + 1) * per).min(trials) {
             let seed = ctx.sub_seed(&[stage, k as u64, n as u64, t as u64, rk as u64]);
             let rng = match rk {
-                RngKind::Fast | RngKind::FastAfterClear => CtlRng::fast(seed),
+                RngKind::Fast | RngKind::FastAfterClear | RngKind::FastExtendBatches => CtlRng::fast(seed),
                 RngKind::ChaCha => CtlRng::chacha(seed),
             };
             let mut s: ReservoirSampling<u32, CtlRng> = ReservoirSampling::new(k, rng);
@@ -167,8 +170,29 @@ fn run_trials(ctx: &Ctx, k: usize, n: usize, trials: usize, stage: u64, rk: RngK
                 }
                 s.clear();
             }
-            for p in 0..n as u32 {
-                s.add(p);
+            if rk == RngKind::FastExtendBatches {
+                let mut br = FastRng::new(seed ^ 0xBA7C_4ED);
+                let mut p = 0u32;
+                while (p as usize) < n {
+                    let x = br.below(10);
+                    if x >= 8 {
+                        s.add(p);
+                        p += 1;
+                        continue;
+                    }
+                    let len = if x < 5 { 1 + br.below(8) } else { 1 + br.below(2 * k as u64 + 1) } as u32;
+                    let e = p.saturating_add(len).min(n as u32);
+                    if br.chance(0.3) {
+                        s.extend((p..e).filter(|v| *v != u32::MAX)); // no exact size hint
+                    } else {
+                        s.extend(p..e);
+                    }
+                    p = e;
+                }
+            } else {
+                for p in 0..n as u32 {
+                    s.add(p);
+                }
             }
             for p in s.reservoir() {
                 cc[bin_of[*p as usize] as usize] += 1;
@@ -297,14 +321,17 @@ pub fn run(ctx: &Ctx) -> Report {
     let mut worst = [0f64; 3];
     for &k in &KS {
         for n in ns_for(k, ctx.tier) {
-            for rk in [RngKind::Fast, RngKind::ChaCha, RngKind::FastAfterClear] {
+            for rk in [RngKind::Fast, RngKind::ChaCha, RngKind::FastAfterClear, RngKind::FastExtendBatches] {
+                if rk == RngKind::FastExtendBatches && !((k == 8 || k == 3 || k == 64) && n <= 100 * k && n > 2 * k) {
+                    continue;
+                }
                 if rk == RngKind::ChaCha && !(k == 8 || (k == 2 && n <= 10)) {
                     continue;
                 }
                 if rk == RngKind::FastAfterClear && !((k == 8 || k == 3) && n <= 10 * k) {
                     continue;
                 }
-                let label = format!("k={}/n={}{}", k, n, match rk { RngKind::ChaCha => "/chacha", RngKind::FastAfterClear => "/after-clear", RngKind::Fast => "" });
+                let label = format!("k={}/n={}{}", k, n, match rk { RngKind::ChaCha => "/chacha", RngKind::FastAfterClear => "/after-clear", RngKind::FastExtendBatches => "/extend-batches", RngKind::Fast => "" });
                 if let Some(o) = &ctx.only {
                     if !label.contains(o.as_str()) {
                         continue;
